@@ -17,6 +17,7 @@ ENGINES = [
     {"name": "int256", "path": "harness/eng_int256.go", "serves_properties": ["C05"], "kind_free_text": "differential driver of internal/signed256 and the int-string readers of pkg/core/object against Model/Int256.lean, with a math/big oracle"},
     {"name": "range", "path": "harness/eng_range.go", "serves_properties": ["C11"], "kind_free_text": "differential driver of PayloadRange.Resolve and of range reads through FSTree/shard/engine against Gen/Arith.lean + Model/Range.lean"},
     {"name": "grace", "path": "harness/eng_grace.go", "serves_properties": ["C47"], "kind_free_text": "runs the real shard new-epoch handler and engine start-up cleanup against Model/Grace.lean over the property's full table"},
+    {"name": "arith", "path": "harness/eng_arith.go", "serves_properties": ["C39"], "kind_free_text": "differential driver of pkg/util/precision against Model/Precision.lean with a math/big oracle"},
     {"name": "ec", "path": "harness/eng_ec.go", "serves_properties": ["C21", "C22"], "kind_free_text": "differential driver of internal/ec against Model/EC.lean"},
 ]
 
@@ -91,3 +92,17 @@ prop("C47",
      rule="exhaustive table epoch 0..10 x unpaidSince -1..12 x payments on/off x payment-check error, container-list error every third mark, 35 boundary "
           "pairs near 2^32/2^63/2^64, 3 container-source answers through engine start-up; non-trivial = payments on, no error, mark set; distinct by op",
      assumptions=["the handler is driven synchronously through a verif export; asynchronous event delivery is what makes marks ahead of the epoch reachable"])
+
+prop("C39",
+     theorems=["NeoFS.Precision.roundtrip_le", "NeoFS.Precision.exact_when_finer", "NeoFS.Precision.C39_counterexample",
+               "NeoFS.Precision.no_wrap_partial", "NeoFS.Precision.no_wrap_upto_11"],
+     engines=[dict(name="arith", quick=1, thorough=1)],
+     claim="Lean proves for every amount and precision that main-net -> balance -> main-net never yields more than the original and is exact for "
+           "precision >= 8, and pins the exact overflow boundary: no wrap whenever amount x 10^|p-8| < 2^63 (all amounts < 2^53 for p in 8..11). "
+           "The property's full no-overflow claim is FALSE for the current code (theorem C39_counterexample: p=12, n=2^53-1 wraps negative) and is "
+           "recorded as a known finding; the model is tied to precision.Fixed8Converter by a differential run over boundary and random amounts.",
+     note="Trusted: Lean kernel; hand model Model/Precision.lean (big.Int Div = Euclidean division, Int64() = low 64 bits) tied by correspondence. "
+          "Known finding C39-mul-overflow (not repaired: needs an API change).",
+     rule="precisions 0..18 x (boundary amounts 10^k+-1, 2^63/10^k+-1, 2^53/10^k, 2^31.., plus seeded random magnitudes) x both directions; "
+          "non-trivial = product fits int64, n > 1, p != 8; distinct by op",
+     assumptions=["amounts are non-negative (the converter is only used for deposits/withdrawals)"])
